@@ -1,5 +1,5 @@
 """C16: batch calls correlate every response entry with the caller's original key (mode c16 of the codec driver)."""
-import codec
+import codec, rootmode
 import c10
 
 
@@ -21,4 +21,4 @@ def main(tier, seed, replay):
     c10.TRUSTED, c10.ASSUME = TRUSTED, ASSUME
     return c10.run("C16", "c16", tier, seed, replay, "Props.C16", "Corr/KeySetCorr.vo",
                    "corr:keyset (model key set / re-keying vs the real batchkeyset and BatchResponse.UnmarshalWithKeyLocator)",
-                   ["TablesFnv", "TablesCodec"])
+                   ["TablesFnv", "TablesCodec"], post=rootmode.post("c16"))
